@@ -252,9 +252,129 @@ fn handle(v: Verdict, case: u64, ev: &mut Ev, what: &str, desc: &Value, answer: 
     }
 }
 
+/// LP instances on which minilp 0.2.2 panics (unwrap of SingularMatrix, solver.rs:1301); found by C04's
+/// thorough histories (seed 1, cases 39494, 58860, 179807) and repaired in /repo by 4403581: the answer
+/// must be a status, never an unwinding panic. All three are empty by a margin (exact slack about -1).
+fn regression_instances() -> Vec<Aff> {
+    vec![
+        Aff {
+            mat: vec![
+                vec![-0.75, -1.25, 4.0, -4.0],
+                vec![36.0, 6.0, -3.75, 14.0],
+                vec![-73.0, -16.0, 14.25, -33.5],
+                vec![73.0, 16.0, -14.25, 33.5],
+                vec![-151.25, 4.8125, -47.5, -20.625],
+                vec![0.0, -3.125, 0.0, 0.0],
+                vec![2386462.03125, -75860.0390625, 749471.25, 325403.203125],
+                vec![-433902.1875, 13792.734375, -136267.5, -59164.21875],
+            ],
+            bias: vec![-2.5, -13.0, 17.75, -16.75, -6.125, -2.625, 20648.5859375, -3755.515625],
+        },
+        Aff {
+            mat: vec![
+                vec![1.0, 1.5, -0.0, -0.0],
+                vec![-1.0, -1.5, 1.0, -1.5],
+                vec![1.75, 0.75, 0.5, -3.0],
+                vec![0.5, -0.0, -2.0, -0.0],
+                vec![1.23046875, -0.703125, -5.625, -0.703125],
+                vec![-114127.67018127441, 65229.775817871094, 521694.45654296875, 65206.775817871094],
+                vec![114127.67018127441, -65229.775817871094, -521694.45654296875, -65206.775817871094],
+                vec![-468915.8622665405, 268009.296295166, 2143483.745361328, 267914.796295166],
+            ],
+            bias: vec![-3.5, 0.5, -2.0, -1.5, -13.2109375, 977723.5356750488, -977722.5356750488, 4017159.798751831],
+        },
+        Aff {
+            mat: vec![
+                vec![15.0, 5.0, 1.5, 8.25],
+                vec![20.0, 12.0, 2.0, 3.0],
+                vec![22.0, 6.25, 10.125, 19.1875],
+                vec![1.0, 1.65625, -0.796875, 3.5546875],
+                vec![1028.0, 344.1875, 425.34375, 998.515625],
+                vec![-51.0, -134.78125, 86.734375, -279.6484375],
+                vec![175.75, 140.21875, -2.765625, 334.1015625],
+                vec![21510.0, 8472.1875, 7764.84375, 23377.265625],
+                vec![-10082.8125, -3971.337890625, -3639.7705078125, -10958.09326171875],
+                vec![-25207.03125, -9928.3447265625, -9099.42626953125, -27395.233154296875],
+            ],
+            bias: vec![-6.0, -13.0, -21.25, -0.03125, -1181.6875, -135.84375, -68.71875, -22585.9375, 10588.095703125, 26466.4580078125],
+        },
+    ]
+}
+
+fn run_regressions(case: u64, ev: &mut Ev) {
+    for (k, p) in regression_instances().iter().enumerate() {
+        let n = p.indim();
+        let desc = json!({"class": "regression: minilp SingularMatrix panic", "instance": k, "P": p.json()});
+        let lp = p.to_poly();
+        match lib(case, "status (regression instance)", || lp.status()) {
+            Ok(st) => {
+                if !handle(referee(&p.mat, &p.bias, &vec![0.0; n], &st), case, ev, "status", &desc, &st) {
+                    return;
+                }
+                ev.inc("regression_instances_answered_without_panic");
+            }
+            Err(pm) => {
+                ev.violation(case, "c10:status:panic", "", json!({"case": desc, "panic": pm}));
+                return;
+            }
+        }
+    }
+}
+
+/// badly scaled systems: rows multiplied by powers of two up to 2^21 and near-duplicate slabs, the kind of
+/// path polytope that long composition histories produce
+fn run_badly_scaled(case: u64, rng: &mut Rng, ev: &mut Ev) {
+    let n = 2 + rng.below(4);
+    let m = n + 2 + rng.below(6);
+    let mut p = gen::pred(rng, m, n, Regime::Dyadic);
+    for i in 0..m {
+        if rng.chance(0.4) {
+            let f = 2f64.powi(rng.int(8, 21) as i32) * (1.0 + rng.below(8) as f64 / 8.0);
+            for v in p.mat[i].iter_mut() {
+                *v *= f;
+            }
+            p.bias[i] *= f;
+        }
+    }
+    if rng.chance(0.6) {
+        // a negated copy of a scaled row with a bias making a thin, empty or unit slab
+        let i = rng.below(m);
+        let row: Vec<f64> = p.mat[i].iter().map(|v| -*v).collect();
+        let b = -p.bias[i] + *rng.pick(&[1.0, 0.0, -1.0, 0.5, -1e-3]);
+        p.mat.push(row);
+        p.bias.push(b);
+    }
+    ev.evaluations += 1;
+    ev.inc("class_badly_scaled");
+    let desc = json!({"class": "badly_scaled", "P": p.json()});
+    let lp = p.to_poly();
+    match lib(case, "status", || lp.status()) {
+        Ok(st) => {
+            if matches!(st, PolytopeStatus::Error(_)) {
+                ev.inc("badly_scaled_solver_error_status");
+            }
+            if !handle(referee(&p.mat, &p.bias, &vec![0.0; n], &st), case, ev, "status", &desc, &st) {
+                return;
+            }
+            let mut h = Hasher::new();
+            h.s(&desc.to_string());
+            ev.nontrivial(h.fin());
+        }
+        Err(pm) => {
+            ev.violation(case, "c10:status:panic", "", json!({"case": desc, "panic": pm}));
+        }
+    }
+}
+
 pub fn run_case(ctx: &Ctx, case: u64, ev: &mut Ev) {
     let mut rng = Rng::derive(ctx.seed, "C10", case);
     rng.big = ctx.tier == crate::Tier::Thorough && rng.chance(0.2);
+    if case == 0 {
+        run_regressions(case, ev);
+    }
+    if rng.chance(0.08) {
+        return run_badly_scaled(case, &mut rng, ev);
+    }
     match rng.below(10) {
         0..=5 => run_generated(case, &mut rng, ev),
         6..=7 => run_chebyshev(case, &mut rng, ev),
